@@ -47,7 +47,9 @@ ALIAS_METHODS = {"ravel", "reshape", "view", "squeeze", "transpose", "swapaxes",
 INPLACE_METHODS = {"sort", "fill", "resize", "itemset", "put", "partition", "setflags", "setfield",
                    "byteswap", "append", "extend", "insert", "remove", "clear", "update", "reverse",
                    "add", "discard", "pop", "popitem", "setdefault", "shuffle", "sort_values",
-                   "sort_index", "fillna_inplace", "drop_inplace"}
+                   "sort_index", "fillna_inplace", "drop_inplace",
+                   # scikit-learn: changes the parameters of the receiver in place (and returns it: ALIAS_METHODS)
+                   "set_params"}
 #: methods in INPLACE_METHODS that are in-place only on the receiver when it is a container the
 #: caller could own (lists/dicts/sets); kept in one table: a write through the name
 #: functions (last dotted component) writing into their FIRST argument
